@@ -961,6 +961,17 @@ class Interp(object):
             self._closure_env = getattr(self, '_closure_env', {})
             self._closure_env[id(cfi.node)] = defining
             return self.call_function(cfi, args, kwargs, node)
+        if type(fn).__name__ == 'ARecordType':
+            from sa.values import ARecord
+            self.calls_resolved += 1
+            vals = list(args)
+            for f_ in fn.fields[len(vals):]:
+                if f_ not in kwargs:
+                    self._type_error(node, 'missing field %r of %s' % (f_, fn.name))
+                vals.append(kwargs[f_])
+            if len(vals) != len(fn.fields) or any(k_ not in fn.fields for k_ in kwargs):
+                self._type_error(node, 'arguments of %s' % fn.name)
+            return ARecord(fn, vals)
         if isinstance(fn, tuple) and fn and fn[0] == 'lambda':
             lam = fn[1]
             fr = Frame(self.frames[-1].fi)
